@@ -20,10 +20,12 @@ import (
 	"context"
 	"fmt"
 	"reflect"
+	"runtime/debug"
 
 	"github.com/cloudwego/eino/callbacks"
 	icb "github.com/cloudwego/eino/internal/callbacks"
 	"github.com/cloudwego/eino/internal/generic"
+	"github.com/cloudwego/eino/internal/safe"
 	"github.com/cloudwego/eino/schema"
 )
 
@@ -165,7 +167,21 @@ func runWithCallbacks[I, O, TOption any](r func(context.Context, I, ...TOption) 
 	return func(ctx context.Context, input I, opts ...TOption) (output O, err error) {
 		ctx, input = onStart(ctx, input)
 
+		// a component that panics ends its execution as well: the panic is contained further up
+		// (taskManager.executor, parallelRunToolCall) and becomes the error of this execution, so the
+		// handlers that have seen its start are told; the panic itself goes on unchanged
+		finished := false
+		defer func() {
+			if finished {
+				return
+			}
+			panicValue := safe.PanicValue(recover(), false)
+			_, _ = onError(ctx, safe.NewPanicErr(panicValue, debug.Stack()))
+			panic(panicValue)
+		}()
+
 		output, err = r(ctx, input, opts...)
+		finished = true
 		if err != nil {
 			ctx, err = onError(ctx, err)
 			return output, err
